@@ -186,8 +186,8 @@ def check_c(inj, res):
 
 
 # ---------------------------------------------------------------- AUTH gating
-USERS = ['user', 'üsér', 'a b']
-SECRETS = ['pw', 'pässwörd 密', 'p w']
+USERS = ['user', 'üsér', ' a b']
+SECRETS = ['pw', 'pässwörd 密', 'p w\t']
 USERS_T = USERS + ['u\u0000x'.replace('\u0000', '.'), 'ǅ\u200d𝕦', 'x' * 64, '"quoted"@d']
 SECRETS_T = SECRETS + ['=', '*', ' lead', 'trail ', 'ünï\tcode']
 ZIDS = ['', 'zid']
